@@ -388,6 +388,24 @@ def main():
             violations.append({'obligation': '%s::census::%s' % (c['unit'], c['label']), 'backend': 'extractor',
                                'kind': 'census', 'message': 'call-site census changed: `%s` occurs %d times in %s, contract assumes %d'
                                % (c['pattern'], c['found'], c['file'], c['expected']), 'clause': c['pattern'], 'function': c['label']})
+    # ---- fallback: a function the deductive verifier could not follow in this tree (isolated above) is handed to the bounded
+    # Kani harnesses that exercise it on the real code, even in the quick tier (cfg 'fallback_kani': selector -> harnesses)
+    if not a.no_kani:
+        extra = []
+        for r in verus_results:
+            for m in r['info']['map']:
+                if m.get('stubbed'):
+                    for h in cfg.get('fallback_kani', {}).get(m['selector'], []):
+                        if h not in harnesses and h not in extra:
+                            extra.append(h)
+        if extra:
+            notes.append('fallback Kani harnesses for functions not verified in this tree: ' + ', '.join(extra))
+            r2 = safe(kanirun.run_cached, a.repo, extra, pid + '-fb', cfg.get('kani_timeout', 1500) * 3, 1)
+            if isinstance(r2, Exception):
+                noverdict.append('kani (fallback): %s' % r2)
+            else:
+                kani_res.update(r2)
+                harnesses += extra
     # ---- Kani verdicts
     kani_checks = 0
     kani_ok = 0
